@@ -79,7 +79,7 @@ impl ObsRun {
     async fn exec(&mut self, api: &str, text: &str) -> (i64, i64, i64) {
         if !self.inst.healthy { let m = self.model.clone(); let old = std::mem::replace(&mut self.inst, Inst::start(&m).await); old.close(); self.restarts += 1; }
         // post-mortem: if the process itself dies (stack overflow, abort) the culprit is on disk
-        let _ = std::fs::write(format!("{}/in_flight.json", WORK), json!({"api": api, "text": text}).to_string());
+        let _ = std::fs::write(format!("{}/in_flight.json", work_dir()), json!({"api": api, "text": text}).to_string());
         let before = panics();
         let mut rng = Rng(text.len() as u64 ^ (self.calls as u64).wrapping_mul(0x9E3779B97F4A7C15));
         let o = match api {
@@ -101,7 +101,7 @@ impl ObsRun {
 /// where newly found failing inputs are kept: the corpus, or - when the run is against a scratch
 /// checkout (./chk --repo) - a folder of that run, so that seeded regressions do not enter the corpus
 fn found_dir() -> String {
-    match std::env::var("VERIF_WORK") { Ok(w) if w != "/verif/work" => format!("{}/C14/found", w), _ => CORPUS.to_string() }
+    match std::env::var("VERIF_WORK") { Ok(w) if w != "/verif/work" => format!("{}/C14/found", w), _ => CORPUS.to_string() }   // a sweep with its own work dir does not write the corpus either
 }
 fn save_corpus(stream: u64, api: &str, text: &str, why: &str) {
     let dir = found_dir();
